@@ -663,9 +663,16 @@ func zzDetRoot(prev []byte, h uint64, txs [][]byte) []byte {
 // transactions (what C15 establishes for the reference executor).
 type zzDetExec struct {
 	zzExec
+	// onExec, if set, runs at the start of every ExecuteTxs call with the number of the call (1, 2, ...)
+	onExec func(n int)
+	nExec  int
 }
 
 func (e *zzDetExec) ExecuteTxs(ctx context.Context, txs [][]byte, h uint64, t time.Time, prev []byte) ([]byte, uint64, error) {
+	e.nExec++
+	if e.onExec != nil {
+		e.onExec(e.nExec)
+	}
 	if e.failExec {
 		return nil, 0, zzErrInjected
 	}
